@@ -75,6 +75,7 @@ func histPlans(prop, tier string) []histPlan {
 		ps = append(ps, histPlan{nsqd.HistCfg{MemQ: 8, MaxMsgs: 3, Chans: 1, Cons: 2}, d})
 		ps = append(ps, histPlan{nsqd.HistCfg{MemQ: 8, MaxMsgs: 3, Chans: 1, Cons: 2, Buffered: true}, d})
 		ps = append(ps, histPlan{nsqd.HistCfg{MemQ: 0, MaxBytes: 64, MaxMsgs: 3, Chans: 1, Cons: 1}, d})
+		ps = append(ps, histPlan{nsqd.HistCfg{MemQ: 8, MaxMsgs: 2, Chans: 1, Cons: 1, Restart: true}, d - 1})
 	case "C13":
 		ps = append(ps, histPlan{nsqd.HistCfg{MemQ: 8, MaxMsgs: 3, Chans: 2, Cons: 2, Admin: true}, d - 1})
 		ps = append(ps, histPlan{nsqd.HistCfg{MemQ: 1, MaxBytes: 64, MaxMsgs: 3, Chans: 1, Cons: 1, Admin: true}, d})
@@ -129,6 +130,42 @@ func histCheck(prop, tier, level string) int {
 		perCfg = append(perCfg, map[string]interface{}{"config": p.cfg.String(), "depth_completed": st.MaxDepth, "states": st.States, "transitions": st.Transitions, "new_states_per_depth": st.PerDepth, "exhaustive_to_depth": st.Exhaustive, "violations_of_other_properties_seen": other})
 	}
 	rep.Extra["configurations"] = perCfg
+	if prop == "C05" {
+		// E1: the shutdown request at every decision point of an overlapping operation
+		var specs []nsqd.MicroSpec
+		for _, st := range []string{"inflight", "expired", "queued", "deferred"} {
+			for _, mq := range []int64{10, 0} {
+				for _, op := range []string{"scan", "fin1", "req1", "req1d", "touch1", "rdy2", "pub", "disc1", "pause_ch", "stats"} {
+					if st == "queued" && op != "rdy2" && op != "pub" && op != "pause_ch" {
+						continue
+					}
+					specs = append(specs, nsqd.MicroSpec{State: st, MemQ: mq, Ops: []string{op, "exit"}})
+				}
+			}
+		}
+		specs = append(specs, nsqd.MicroSpec{State: "expired", MemQ: 10, Ops: []string{"scan", "rdy2", "exit"}})
+		specs = append(specs, nsqd.MicroSpec{State: "inflight", MemQ: 10, Ops: []string{"pub", "rdy2", "exit"}})
+		secs := 15
+		if tier == "thorough" {
+			secs = 300
+		}
+		runMicros(rep, specs, secs, false)
+	}
+	if prop == "C01" {
+		// E1: a delivery overlapping the consumer's disconnect (write failures)
+		var specs []nsqd.MicroSpec
+		for _, st := range []string{"queued", "inflight"} {
+			for _, mq := range []int64{10, 0} {
+				for _, un := range []bool{true, false} {
+					specs = append(specs, nsqd.MicroSpec{State: st, MemQ: mq, Unbuf: un, Ops: []string{"rdydisc1", "pub"}})
+					specs = append(specs, nsqd.MicroSpec{State: st, MemQ: mq, Unbuf: un, Ops: []string{"disc1", "pub"}})
+					specs = append(specs, nsqd.MicroSpec{State: st, MemQ: mq, Unbuf: un, Ops: []string{"rdydisc1", "scan"}})
+					specs = append(specs, nsqd.MicroSpec{State: st, MemQ: mq, Unbuf: un, Ops: []string{"disc2", "rdy2"}})
+				}
+			}
+		}
+		runMicros(rep, specs, 20, false)
+	}
 	if prop == "C03" || prop == "C13" {
 		// E1 complement: the consumer's in-flight count under concurrency with Empty
 		var specs []nsqd.MicroSpec
@@ -142,6 +179,14 @@ func histCheck(prop, tier, level string) int {
 			}
 		}
 		specs = append(specs, nsqd.MicroSpec{State: "inflight", MemQ: 10, Ops: []string{"fin1", "rdy2", "pub"}})
+		// ... and of the counters under plain consumer concurrency (two connections)
+		for _, st := range []string{"expired", "inflight", "held2"} {
+			for _, pr := range pairs([]string{"fin1", "req1", "touch1", "scan", "rdy2", "fin2", "req2"}) {
+				if realistic(pr) {
+					specs = append(specs, nsqd.MicroSpec{State: st, MemQ: 10, Ops: pr})
+				}
+			}
+		}
 		states, outcomes := rep.States, rep.Outcomes
 		runMicros(rep, specs, 20, false)
 		_ = states
